@@ -487,7 +487,18 @@ pub fn check_c04(scn: &Scenario, res: &RunResult) -> Vec<Violation> {
         let fits = matches!(owner, Some(p) if p.m == c.m && accepts(p, c.x, c.y));
         if let (true, Some(p)) = (fits, owner) {
             if matcher_fault_applies(scn, &flat, c, None) == Some(p.uid) {
-                deviated = true; // user panic inside the matcher: nothing further is specified
+                // a user panic inside the slot's matcher: this was still the i-th call made to an
+                // ordered method - it used up its place in the sequence and matched nothing; the
+                // calls after it are judged as before
+                if !(counts_step(pre, post, None) && post.ordered == i + 1) {
+                    out.push(v(
+                        "C04",
+                        "panicking-matcher-uses-its-slot",
+                        format!("{:?}", c.m),
+                        format!("the matcher of slot {i} panicked (user code): nothing may be counted and the position must advance by one: {}", describe(c)),
+                    ));
+                    deviated = true;
+                }
                 continue;
             }
             let k = count_of(pre, p).unwrap_or(0) + 1;
@@ -810,7 +821,7 @@ pub fn clone_population(scn: &Scenario, log: &Log, target: usize) -> (bool, bool
                 insts.push(Inst { created_start: o.start_step, created_end: o.end_step, gone: None });
                 events.push((o.end_step, 0, SlotEv::Put { slot: dst, inst: insts.len() - 1 }));
             }
-            Some(Op::Drop { slot }) | Some(Op::Verify { slot }) | Some(Op::Report { slot }) | Some(Op::Hold { slot }) => {
+            Some(Op::Drop { slot }) | Some(Op::Verify { slot }) | Some(Op::Report { slot }) | Some(Op::Hold { slot }) | Some(Op::UnwindDrop { slot }) => {
                 events.push((o.start_step, 1, SlotEv::Take { slot, op: i }));
             }
             Some(Op::NoVerifyInDrop { slot }) if !matches!(o.result, OpResult::Done) => {
